@@ -41,7 +41,7 @@ func (p *Prog) verifyFunc(fn *ssa.Function, ct *Contract) (res *FuncResult) {
 		vc.get(st, vc.heapKey(k))
 	}
 	vc.get(st, vc.allocKey())
-	vc.assumeRaw(fmt.Sprintf("(not (select %s 0))", vc.get(st, "alloc")))
+	vc.assumeRaw(tLt("0", vc.get(st, "alloc")))
 	// parameters
 	fr.specVars = map[string]Val{}
 	for i, prm := range fn.Params {
